@@ -1,13 +1,13 @@
 SPECIFICATION Spec
 CONSTANTS
-  NTok = 2
+  NTok = 3
   Lifetimes = {8, 400}
   MaxTime = 14
   Injections = 1
   RenewEarly = 2
   LateFrom = 11
-  Dev_ExpiryWrongKey = TRUE
-  Dev_PrefixOnly = FALSE
+  Dev_ExpiryWrongKey = FALSE
+  Dev_PrefixOnly = TRUE
   AsIs_ExpiryWrongKey = FALSE
 INVARIANTS InvExpired
 CHECK_DEADLOCK FALSE
